@@ -119,7 +119,9 @@ Fixpoint seq_run (run : expr -> bool -> bool -> mstate -> option mres)
   end.
 
 (** ordered choice: position/tokenIndex saved once; restored between alternatives; the last
-    alternative fails to the outer continuation without restoring *)
+    alternative fails to the outer continuation without restoring.  The skip-check flags of the
+    parent are not handed down (nor through lookahead, optional and star): only the first element of a sequence,
+    captures and inlined rules inherit them. *)
 Fixpoint alt_run (run : expr -> bool -> bool -> mstate -> option mres)
                  (es : list expr) (pd mk : bool) (p0 t0 : nat) (st : mstate) : option mres :=
   match es with
@@ -193,27 +195,27 @@ Fixpoint run_f (n : nat) (e : expr) (pd mk : bool) (st : mstate) {struct n} : op
     | EPred k => Some (Ret (penv k (pos st)) st)
     | EState _ | EAct _ | ENil => Some (Ret true st)
     | ESeq es => seq_run (run_f n) es pd mk st
-    | EAlt es => alt_run (run_f n) es pd mk (pos st) (tix st) st
+    | EAlt es => alt_run (run_f n) es false false (pos st) (tix st) st
     | EAnd e1 =>
-        match run_f n e1 pd mk st with
+        match run_f n e1 false false st with
         | Some (Ret true st1) => Some (Ret true (restore (pos st) (tix st) st1))
         | x => x
         end
     | ENot e1 =>
-        match run_f n e1 pd mk st with
+        match run_f n e1 false false st with
         | Some (Ret true st1) => Some (Ret false st1)
         | Some (Ret false st1) => Some (Ret true (restore (pos st) (tix st) st1))
         | x => x
         end
     | EQuery e1 =>
-        match run_f n e1 pd mk st with
+        match run_f n e1 false false st with
         | Some (Ret false st1) => Some (Ret true (restore (pos st) (tix st) st1))
         | x => x
         end
     | EStar e1 =>
-        match run_f n e1 pd mk st with
+        match run_f n e1 false false st with
         | Some (Ret false st1) => Some (Ret true (restore (pos st) (tix st) st1))
-        | Some (Ret true st1) => run_f n (EStar e1) pd mk st1
+        | Some (Ret true st1) => run_f n (EStar e1) false false st1
         | x => x
         end
     | EPlus e1 =>
